@@ -7,9 +7,9 @@ git -C /repo worktree add -q --detach $wt HEAD || exit 9
 cd $wt
 {
 echo "seed $prop/$m on repo $(git -C /repo rev-parse --short HEAD)"
-(timeout 300 /venv/bin/python $d/demo.py >/dev/null 2>&1; echo "demo_without_change_exit=$?")
+(PYTHONPATH=$wt timeout 300 /venv/bin/python $d/demo.py >/dev/null 2>&1; echo "demo_without_change_exit=$?")
 if git apply --check $d/patch.diff 2>/dev/null; then echo "patch_applies=yes"; git apply $d/patch.diff; else echo "patch_applies=NO"; fi
-(timeout 300 /venv/bin/python $d/demo.py >/dev/null 2>&1; echo "demo_with_change_exit=$?")
+(PYTHONPATH=$wt timeout 300 /venv/bin/python $d/demo.py >/dev/null 2>&1; echo "demo_with_change_exit=$?")
 timeout 1500 /venv/bin/python -m pytest -q -p no:cacheprovider --timeout=900 --continue-on-collection-errors -o addopts="--doctest-modules beyond/ tests/" 2>&1 | grep -E "^FAILED|passed|failed" | sed 's/ - .*//' | sort > $out.tests
 echo "tests_summary=$(grep -E 'passed|failed' $out.tests | tail -1)"
 echo "failed_set_md5=$(grep '^FAILED' $out.tests | md5sum | cut -c1-12)"
